@@ -22,8 +22,8 @@ CLAIMED = {
         text="Proved for all ploidies / SNV counts: mutation.compound_step visits every (haplotype, SNV) pair exactly once (table fill without dtype narrowing, shuffle bijection, call arguments); random_breaks returns contiguous non-empty intervals partitioning [0,n); structural.compound_step calls interval_step once per interval. Bounded: sweep recorder up to 400 SNVs, homozygosity screen vs independent single-SNV posterior, fixed-site re-insertion in DenovoMCMC._mcmc.",
         design_ref="DESIGN.md 4 (C15)", note=BASE_NOTE + "np.random.shuffle is a trusted bijection; random_breaks / _mcmc are not under U contract."),
     "C09": dict(category="other", technique='contract-based deductive verification: sidecar contracts on the real functions, VCs generated from /repo source by pyvc (loop invariants, ghost lemmas, callee contracts), discharged by z3' + " (arraymap included; structural label/option helpers assumed); " + 'run-time contracts of the property evaluated on the real functions over enumerated / seeded bounded domains against oracles written from the property statement (bounded stand-in, never counted as proved)',
-        text="Proved (modulo the assumed structural label/option contracts): assemble -- arraymap new/get/set (the trie with growth and flush, against a concrete path specification and a tree-ness invariant), cached wrappers, base_step, interval_step, both compound_steps, chain_swap_step and _denovo_assembler: every likelihood recorded in the cold trace equals LLK of the recorded genotype for every move sequence, temperature ladder and cache state. call -- log_likelihood_alleles_cached over the numba dict (coherence via injectivity of the G-field index and permutation invariance of the likelihood), gibbs_options, mh_options, compound_step, mcmc_sampler: every recorded likelihood equals LLKA of the recorded sorted genotype. pedigree -- log_likelihood_alleles_cached, gibbs_probabilities, metropolis_hastings_probabilities, allele_step, sample_step, compound_step and pair_allele_swap_step keep every cached value equal to the likelihood of the owning sample's own reads (the fixed defect F3 is a failing obligation). Bounded: arraymap on exhaustive operation sequences (growth, flush) vs a dict model; recorded llk == recomputed llk for assemble, call and every entry of a caller-supplied pedigree cache; cache on/off same trajectory.",
-        design_ref="DESIGN.md 4 (C09)", note=BASE_NOTE + "Assumed (R-checked) contracts: structural.haplotype_segment_labels and the four step-option helpers (shapes / ranges), pedigree markov_blanket_log_allele_probability (abstract result); POSREADS: all likelihoods the sampler can meet are finite."),
+        text="Proved (modulo the assumed contract of structural.haplotype_segment_labels): assemble -- the structural option enumerators and counters (exact option count, allocation bound, every option reversible), arraymap new/get/set (the trie with growth and flush, against a concrete path specification and a tree-ness invariant), cached wrappers, base_step, interval_step, both compound_steps, chain_swap_step and _denovo_assembler: every likelihood recorded in the cold trace equals LLK of the recorded genotype for every move sequence, temperature ladder and cache state. call -- log_likelihood_alleles_cached over the numba dict (coherence via injectivity of the G-field index and permutation invariance of the likelihood), gibbs_options, mh_options, compound_step, mcmc_sampler: every recorded likelihood equals LLKA of the recorded sorted genotype. pedigree -- log_likelihood_alleles_cached, gibbs_probabilities, metropolis_hastings_probabilities, allele_step, sample_step, compound_step and pair_allele_swap_step keep every cached value equal to the likelihood of the owning sample's own reads (the fixed defect F3 is a failing obligation). Bounded: arraymap on exhaustive operation sequences (growth, flush) vs a dict model; recorded llk == recomputed llk for assemble, call and every entry of a caller-supplied pedigree cache; cache on/off same trajectory.",
+        design_ref="DESIGN.md 4 (C09)", note=BASE_NOTE + "Assumed (R-checked) contracts: structural.haplotype_segment_labels (shape / range), pedigree trio_log_pmf and trio_allele_log_pmf (abstract results); POSREADS: all likelihoods the sampler can meet are finite."),
     "C01": dict(category="other", technique='run-time contracts of the property evaluated on the real functions over enumerated / seeded bounded domains against oracles written from the property statement (bounded stand-in, never counted as proved)' + "; " + 'contract-based deductive verification: sidecar contracts on the real functions, VCs generated from /repo source by pyvc (loop invariants, ghost lemmas, callee contracts), discharged by z3' + " for base_step, interval_step, the exchange step and the prior closed forms",
         text="Bounded, exhaustive: for all ordered genotypes of small instances (ploidy<=4, <=3 SNVs, bi/tri-allelic, gaps, counts) x inbreeding {0,.3} x inverse temperature {1,.6}: base_step and interval_step probability vectors captured from the real kernels satisfy detailed balance w.r.t. (lik x prior)^t over unordered genotypes and depend on the genotype only as a multiset; exchange acceptance formula and state swap; orchestration arguments. Proved: base_step hands random_choice exactly the closed-form Metropolis-Hastings kernel exp(min(0, temp x (dllk + dlprior) + log(copies after/before)))/(n-1) with the prior a function of the genotype's haplotype dosage (get_haplotype_dosage strong contract); interval_step hands it exp(min(0, temp x (dllk + dlprior) + log(1/n_back) - log(1/n_options)))/n_options for every structural option (n_back: abstract result of the assumed option-count helper); chain_swap_step accepts with min(1, exp((U_j-U_i)(T_i-T_j))) and that acceptance is in detailed balance for the product of tempered targets (lemma); base_step / interval_step vectors are probability distributions with the stated frames, _denovo_assembler keeps llks[t] == LLK(genotypes[t]) for every chain, assemble prior == (Dirichlet-)multinomial closed form.",
         design_ref="DESIGN.md 4 (C01)", note=BASE_NOTE + "Detailed balance per move => stationarity is mathematics outside the check (A6)."),
